@@ -155,11 +155,12 @@ func buildInitial(spec TreeSpec) (*State, error) {
 		}
 		s0.Go = readGo(dir)
 		edited := 0
+		newFiles := map[string]string{}
 		for p, src := range s0.Go {
 			if !isResolverFile(spec.Layout, p) {
 				continue
 			}
-			out, err := userEdit(spec, p, src)
+			out, extra, err := userEdit(spec, p, src)
 			if err != nil {
 				return err
 			}
@@ -168,9 +169,18 @@ func buildInitial(spec TreeSpec) (*State, error) {
 			if err := os.WriteFile(filepath.Join(dir, p), []byte(out), 0o644); err != nil {
 				return err
 			}
+			for ep, ec := range extra {
+				newFiles[ep] = ec
+				if err := os.WriteFile(filepath.Join(dir, ep), []byte(ec), 0o644); err != nil {
+					return err
+				}
+			}
 		}
 		if edited == 0 {
 			return fmt.Errorf("no resolver files generated")
+		}
+		for ep, ec := range newFiles {
+			s0.Go[ep] = ec
 		}
 		ok, out := goBuild(dir)
 		if !ok {
@@ -358,14 +368,20 @@ func (t *Tree) step(d int) error {
 // ---------------------------------------------------------------------------------------
 // The plan: which trees, to which depth.
 
-func uniform(b string) []string { return []string{b, b, b, b, b, b} }
+func uniform(b string) []string {
+	out := make([]string, len(positions))
+	for i := range out {
+		out[i] = b
+	}
+	return out
+}
 
 func plan(tier string) []*Tree {
 	var trees []*Tree
 	add := func(layout string, bs []string, ds []string, depth int, events []Event) {
 		track := true
 		for _, d := range ds {
-			if declByName(d).Decls != "" {
+			if declByName(d).Decls != "" || declByName(d).Twin != "" {
 				track = false
 			}
 		}
@@ -382,16 +398,17 @@ func plan(tier string) []*Tree {
 	}
 	// mixed-body trees: six consecutive body elements on the six methods, rotated by rot
 	mixed := func(t, rot int) []string {
-		out := make([]string, 6)
-		for i := 0; i < 6; i++ {
-			out[(i+rot)%6] = bodies[1+(6*t+i)%(len(bodies)-1)].Name // bodies[0] (plain) is in every other tree
+		n := len(positions)
+		out := make([]string, n)
+		for i := 0; i < n; i++ {
+			out[(i+rot)%n] = bodies[1+(n*t+i)%(len(bodies)-1)].Name // bodies[0] (plain) is in every other tree
 		}
 		return out
 	}
-	nMixed := (len(bodies) - 1 + 5) / 6
+	nMixed := (len(bodies) - 1 + len(positions) - 1) / len(positions)
 	layouts := []string{layoutFollow, layoutSingle}
 	all := append(append([]Event{}, baseEvents...), extraEvents...)
-	groups := []string{"decls", "imports", "imports2", "terminators"}
+	groups := []string{"decls", "imports", "imports2"}
 	if tier == "quick" {
 		// depth 2 on the plain tree of the follow-schema layout, depth 1 everywhere else;
 		// every alphabet element occurs in some tree of either layout
@@ -417,12 +434,11 @@ func plan(tier string) []*Tree {
 	for _, l := range layouts {
 		for t := 0; t < nMixed; t++ {
 			add(l, mixed(t, 0), []string{"none"}, 2, baseEvents)
-			add(l, mixed(t, 3), []string{"none"}, 1, all)
+			add(l, mixed(t, len(positions)/2), []string{"none"}, 1, all)
 		}
 		add(l, uniform("plain"), group("decls"), 2, baseEvents)
 		add(l, uniform("plain"), group("imports"), 2, baseEvents)
 		add(l, uniform("plain"), group("imports2"), 1, all)
-		add(l, uniform("plain"), group("terminators"), 1, all)
 	}
 	for _, l := range layouts {
 		for _, b := range bodies[1:] {
@@ -456,7 +472,7 @@ func replay(file string) {
 	var w struct {
 		Replay Replay `json:"replay"`
 	}
-	if err := json.Unmarshal(b, &w); err != nil || len(w.Replay.Tree.Bodies) != 6 {
+	if err := json.Unmarshal(b, &w); err != nil || len(w.Replay.Tree.Bodies) != len(positions) {
 		die("replay file %s has no usable replay section (%v)", file, err)
 	}
 	spec := w.Replay.Tree
@@ -502,6 +518,9 @@ func replay(file string) {
 func main() {
 	check = common.New("C19", "model_checking")
 	sem = make(chan struct{}, runtime.NumCPU())
+	if err := addTemplateShadowBody(); err != nil {
+		common.Broken("cannot derive the shadowing body from resolver.gotpl: %v", err)
+	}
 	if _, err := probe.Driver(); err != nil {
 		probe.Cleanup()
 		common.Broken("%v", err)
@@ -665,12 +684,13 @@ func main() {
 		"trees_by_depth_bound": byDepth,
 		"events":               evNames,
 		"extra_events_on_some_depth1_trees_thorough": exNames,
-		"body_alphabet":        bn,
-		"declaration_alphabet": dn,
-		"layouts":              []string{layoutFollow, layoutSingle},
-		"closure":              "every history is followed by two regenerations",
-		"state_identity":       "SHA-256 over layout, current schema files, schema of last generation, hand-editable Go files of the resolver package",
-		"trees":                treeDesc,
+		"body_alphabet": bn,
+		"package_names_reserved_by_resolver_gotpl_shadowed": templateNames,
+		"declaration_alphabet":                              dn,
+		"layouts":                                           []string{layoutFollow, layoutSingle},
+		"closure":                                           "every history is followed by two regenerations",
+		"state_identity":                                    "SHA-256 over layout, current schema files, schema of last generation, hand-editable Go files of the resolver package",
+		"trees":                                             treeDesc,
 	}
 	check.Assume = []string{
 		"the generator is deterministic for a given tree (C18), so a (state, regen) transition is executed once",
